@@ -1,4 +1,5 @@
 import MJ.Proofs.Num
+import MJ.Proofs.NumLex
 /-!
 # C08 — numeric operators are exact or fail; they never wrap or lose the sign
 
@@ -449,5 +450,128 @@ theorem float_div_euclid_exact (a b : Int) (hb : b ≠ 0) :
 
 example : fRemEuclid (-7) 2 = 1 ∧ fDivEuclid (-7) 2 = -4 ∧ fRemEuclid 7 (-2) = 1 ∧ fDivEuclid 7 (-2) = -3 := by
   decide
+
+/-! ### Integer literals: every spelling denotes its value
+
+`eatNumber` is the model of `Tokenizer::eat_number`.  A literal is an optional radix prefix
+(`0b 0B 0o 0O 0x 0X`), then *items*: characters that continue a number of that radix (decimal
+digits, `a-f A-F` under `0x`, the separator `_`), not ending in `_`; after it the input ends or
+continues with a terminator (anything that is not a digit, a letter, `_` or `.`). -/
+open MJ.NumLex
+
+def radixPrefix : Nat → Bool → List Char
+  | 2, false => ['0', 'b']
+  | 2, true => ['0', 'B']
+  | 8, false => ['0', 'o']
+  | 8, true => ['0', 'O']
+  | 16, false => ['0', 'x']
+  | 16, true => ['0', 'X']
+  | _, _ => []
+
+/-- prefixed literals: the scanner takes exactly the literal, strips the separators and hands the
+    digits to `from_str_radix` with the radix of the prefix (u64 first, then u128) -/
+theorem lit_scan_radix (radix : Nat) (upper : Bool) (hr : radix = 2 ∨ radix = 8 ∨ radix = 16)
+    (items rest : List Char) (hitems : ∀ c ∈ items, cont radix c = true)
+    (hlast : items.getLast? ≠ some '_') (hrest : Ends rest) :
+    eatNumber (radixPrefix radix upper ++ (items ++ rest)) =
+      (intToken radix (stripUnderscores items), rest) := by
+  have hs := fun (h : radix ≠ 10) =>
+    scan_items (radix := radix) (st := .radixInteger) (Or.inr rfl) items rest hitems hrest
+  rcases hr with rfl | rfl | rfl <;> cases upper <;>
+    simp [eatNumber, radixPrefix, detectRadix, hs, hlast]
+
+/-- decimal literals (first character a digit) -/
+theorem lit_scan_dec (d : Char) (ds rest : List Char) (hd : isDigit d = true)
+    (hitems : ∀ c ∈ ds, cont 10 c = true) (hlast : (d :: ds).getLast? ≠ some '_') (hrest : Ends rest) :
+    eatNumber ((d :: ds) ++ rest) = (intToken 10 (stripUnderscores (d :: ds)), rest) := by
+  have hall : ∀ c ∈ d :: ds, cont 10 c = true := by
+    intro c hc
+    rcases List.mem_cons.1 hc with rfl | h
+    · simp [cont, hd]
+    · exact hitems c h
+  have hs := scan_items (radix := 10) (st := .integer) (Or.inl ⟨rfl, rfl⟩) (d :: ds) rest hall hrest
+  -- no radix prefix is detected: after a leading `0` comes a digit, `_`, a terminator or nothing
+  have hdet : detectRadix ((d :: ds) ++ rest) = (10, (d :: ds) ++ rest) := by
+    by_cases h0 : d = '0'
+    · subst h0
+      cases hds : ds ++ rest with
+      | nil => simp [hds, detectRadix]
+      | cons p tl =>
+        have hp : cont 10 p = true ∨ isTerm p = true := by
+          cases ds with
+          | nil =>
+            simp only [List.nil_append] at hds
+            rcases hrest with rfl | ⟨c, cs, rfl, hc⟩
+            · cases hds
+            · injection hds with h1 _; subst h1; exact Or.inr hc
+          | cons x xs =>
+            simp only [List.cons_append] at hds
+            injection hds with h1 _; subst h1
+            exact Or.inl (hitems _ (List.mem_cons_self ..))
+        have hnot : ¬ (p = 'b' ∨ p = 'B') ∧ ¬ (p = 'o' ∨ p = 'O') ∧ ¬ (p = 'x' ∨ p = 'X') := by
+          rcases hp with hp | hp
+          · simp only [cont, Bool.or_eq_true, Bool.and_eq_true, beq_iff_eq] at hp
+            rcases hp with (hp | ⟨h16, _⟩) | hp
+            · rcases isDigit_cases hp with h | h | h | h | h | h | h | h | h | h <;> subst h <;> decide
+            · omega
+            · subst hp; decide
+          · simp only [isTerm, Bool.not_eq_true', Bool.or_eq_false_iff] at hp
+            have ha := hp.1.1.2
+            refine ⟨?_, ?_, ?_⟩ <;> rintro (rfl | rfl) <;> exact absurd ha (by decide)
+        simp only [List.cons_append, hds, detectRadix, hnot.1, hnot.2.1, hnot.2.2, if_false]
+    · have : ∀ tl, detectRadix (d :: tl) = (10, d :: tl) := by
+        intro tl
+        unfold detectRadix
+        split
+        · rename_i heq; injection heq with h1 _; exact absurd h1 h0
+        · rfl
+      exact this _
+  simp only [List.cons_append] at hdet hs
+  simp [eatNumber, hdet, hs, hlast]
+
+/-- **lit_value**: a prefixed literal whose digits (separators removed) are any number of leading
+    zeros followed by the canonical digits of `v` lexes to the token for `v` -/
+theorem lit_value (radix : Nat) (upper : Bool) (hr : radix = 2 ∨ radix = 8 ∨ radix = 16)
+    (items rest : List Char) (k v : Nat) (hitems : ∀ c ∈ items, cont radix c = true)
+    (hlast : items.getLast? ≠ some '_') (hrest : Ends rest)
+    (hdigits : stripUnderscores items = List.replicate k '0' ++ Nat.toDigits radix v) :
+    eatNumber (radixPrefix radix upper ++ (items ++ rest)) = (classify v, rest) := by
+  rw [lit_scan_radix radix upper hr items rest hitems hlast hrest, hdigits]
+  have h2 : 2 ≤ radix ∧ radix ≤ 16 := by omega
+  simp only [intToken, fromStrRadix_spelling h2.1 h2.2]
+
+/-- the same for decimal literals -/
+theorem lit_value_dec (d : Char) (ds rest : List Char) (k v : Nat) (hd : isDigit d = true)
+    (hitems : ∀ c ∈ ds, cont 10 c = true) (hlast : (d :: ds).getLast? ≠ some '_') (hrest : Ends rest)
+    (hdigits : stripUnderscores (d :: ds) = List.replicate k '0' ++ Nat.toDigits 10 v) :
+    eatNumber ((d :: ds) ++ rest) = (classify v, rest) := by
+  rw [lit_scan_dec d ds rest hd hitems hlast hrest, hdigits]
+  simp only [intToken, fromStrRadix_spelling (by omega : 2 ≤ 10) (by omega : 10 ≤ 16)]
+
+/-- and the token for `v` is stored as the well-formed representation of `v`: every value below
+    `2^128` is accepted, in the narrowest unsigned width -/
+theorem lit_repr (v : Nat) (hv : v < 340282366920938463463374607431768211456) :
+    tokRepr (classify v) = some (reprOf v) ∧ (reprOf v).WF ∧ (reprOf v).val = v := by
+  unfold classify reprOf
+  by_cases h : v < 18446744073709551616
+  · rw [if_pos h, if_pos h]; exact ⟨rfl, h, rfl⟩
+  · rw [if_neg h, if_pos hv, if_neg h]; exact ⟨rfl, hv, rfl⟩
+
+/-- literals of `2^128` and above are rejected, never truncated -/
+theorem lit_too_large (v : Nat) (hv : 340282366920938463463374607431768211456 ≤ v) :
+    classify v = .err := by
+  unfold classify
+  rw [if_neg (by omega), if_neg (by omega)]
+
+/-- non-vacuity: the spellings of `2^64` the seeded lexer bug misread, an upper-case / separated /
+    zero-padded one, a float and the error cases -/
+example : eatNumber "0x10000000000000000 + 1".toList = (.int128 18446744073709551616, " + 1".toList) ∧
+    eatNumber "0X_00ff_FF)".toList = (.int 65535, [')']) ∧
+    eatNumber "0o2000000000000000000000".toList = (.int128 18446744073709551616, []) ∧
+    eatNumber "0b1_0000".toList = (.int 16, []) ∧
+    eatNumber "1_000.5e-3|x".toList = (.float "1000.5e-3".toList, "|x".toList) ∧
+    eatNumber "1.foo".toList = (.int 1, ".foo".toList) ∧
+    (eatNumber "0b12".toList).1 = .err ∧ (eatNumber "1_".toList).1 = .err ∧
+    (eatNumber "340282366920938463463374607431768211456".toList).1 = .err := by decide
 
 end MJ.C08
